@@ -214,9 +214,30 @@ class SymExec:
                 v = self.default(root)
         else:
             v = root
+        cur = root
         for e in path:
+            if e[0] == "ss":
+                # `[a, b, rest @ ..] = array`: a sub-array of a fixed-size array is the array of its elements
+                n = self.loc_array_len(cur) if cur is not None else None
+                if n is not None:
+                    lo, hi = e[1], (n - e[2] if e[3] else e[2])
+                    if 0 <= lo <= hi <= n:
+                        v = ("agg", "array", None, None, tuple(proj_read(v, ("ci", i, False)) for i in range(lo, hi)))
+                        cur = None
+                        continue
             v = proj_read(v, e)
+            cur = self._step_loc(cur, e)
         return v
+
+    @staticmethod
+    def _step_loc(cur, e):
+        if cur is None:
+            return None
+        if e[0] == "f":
+            return ("field", cur, e[1])
+        if e[0] == "dc":
+            return ("downcast", cur, e[1])
+        return None
 
     def write(self, st, loc, val):
         root, path = self.split(loc)
@@ -354,6 +375,15 @@ class SymExec:
                 cand = "<%s as std::convert::From<%s>>::from" % (ra[1], ra[0])
                 if cand in self.fb.bodies:
                     name = cand
+        # size_of::<primitive integer>() is a constant
+        if name in ("std::mem::size_of", "core::mem::size_of") and not args:
+            ra = [self.fb.ty(a["ty"]).s for a in t.get("resolved_args", []) if "ty" in a]
+            w = {"u8": 1, "i8": 1, "u16": 2, "i16": 2, "u32": 4, "i32": 4, "u64": 8, "i64": 8, "u128": 16, "i128": 16}.get(ra[0]) if len(ra) == 1 else None
+            if w is not None:
+                v = ("int", w, "usize")
+                dest = self.place_loc(st, t["dest"])
+                self.write(st, dest, v)
+                return {"k": "call", "name": name, "args": args, "locargs": args, "term": v, "inlined": True, "ret": v, "site": site, "dest": dest}
         # reference-to-reference identities of std: the result points into the argument's pointee
         if name in REF_IDENTITY and len(args) == 1 and args[0][0] == "ref":
             dest = self.place_loc(st, t["dest"])
@@ -755,6 +785,9 @@ def proj_read(v, e):
                     return proj_read(v[1], e)
         return ("cindex", v, off, fe)
     if k == "ss":
+        if not e[3] and isinstance(e[1], int) and isinstance(e[2], int) and 0 <= e[1] <= e[2] and e[2] - e[1] <= 64 and v[0] in ("agg", "upd", "repeat", "bytes"):
+            # constant sub-range of a value whose elements are known one by one
+            return ("agg", "array", None, None, tuple(proj_read(v, ("ci", i, False)) for i in range(e[1], e[2])))
         return ("subslice", v, e[1], e[2], e[3])
     return ("unknown", "proj")
 
@@ -763,6 +796,12 @@ def upd_path(old, path, val):
     if not path:
         return val
     e = path[0]
+    if e[0] == "ss" and not e[3] and len(path) == 1 and isinstance(e[1], int) and isinstance(e[2], int) and 0 <= e[1] <= e[2] and e[2] - e[1] <= 64:
+        # a value stored over a constant sub-range: element-wise stores
+        new = old
+        for i in range(e[1], e[2]):
+            new = upd_path(new, [("ci", i, False)], proj_read(val, ("ci", i - e[1], False)))
+        return new
     inner_old = proj_read(old, e)
     inner_new = upd_path(inner_old, path[1:], val)
     # structural rebuilds where exact
